@@ -623,7 +623,14 @@ class UrwidImageScreen(urwid.raw_display.Screen):
 
         screen_canv = self._ti_screen_canv
 
-        if not isinstance(screen_canv, urwid.CompositeCanvas):
+        if isinstance(screen_canv, urwid.CompositeCanvas):
+            shards = screen_canv.shards
+        elif isinstance(screen_canv, UrwidImageCanvas):
+            # The canvas of a lone image widget (the topmost widget); equivalent to a
+            # single shard containing a single untrimmed canvas view
+            cols, rows = screen_canv.cols(), screen_canv.rows()
+            shards = [(rows, [(0, 0, cols, rows, None, screen_canv)])]
+        else:
             if self._ti_image_cviews:
                 self.clear_images()
                 self._ti_image_cviews = frozenset()
@@ -644,7 +651,7 @@ class UrwidImageScreen(urwid.raw_display.Screen):
         shard_tails = {}
         row = 1
 
-        for n_rows, cviews in screen_canv.shards:
+        for n_rows, cviews in shards:
             col = 1
             for cview in cviews:
                 process_shard_tails()
